@@ -218,6 +218,9 @@ func apiReplay(req string) string {
 		// ObjectIDs generated in the recorded run are renamed to the ones generated now
 		// (position by position in the "oids" lists), so later calls still refer to them
 		rename := map[string]string{}
+		replayNow := time.Now().UnixMilli()
+		var delta int64
+		haveDelta := false
 		genOids := func(line string) []string {
 			var out []string
 			if i := strings.Index(line, `"oids":[`); i >= 0 {
@@ -244,7 +247,10 @@ func apiReplay(req string) string {
 			c := decodeAPICall(o)
 			if clk, ok := o.i64("clk"); ok {
 				// dates generated around the recorded clock move with the clock (TTL outcomes stay the same)
-				shiftDates(c, clk, time.Now().UnixMilli()-clk)
+				if !haveDelta {
+					delta, haveDelta = replayNow-clk, true
+				}
+				shiftDates(c, clk, delta)
 			}
 			st := m.step(c)
 			steps = append(steps, st)
